@@ -584,8 +584,8 @@ impl CKKSEncoder {
 
         if value < 0 {
             for (j, destination_component) in destination.data_mut().chunks_mut(coeff_count).enumerate() {
-                let tmp = coeff_modulus[j].value().wrapping_sub((-value) as u64);
-                let tmp = coeff_modulus[j].reduce(tmp);
+                let tmp = coeff_modulus[j].reduce(value.unsigned_abs());
+                let tmp = util::negate_u64_mod(tmp, &coeff_modulus[j]);
                 destination_component.fill(tmp);
             }
         } else {
